@@ -119,7 +119,7 @@ def check_helpers(ctx: Ctx, workers: int) -> None:
 
 
 # ------------------------------------------------------------------------------------------ optimiser
-KINDS = ["dense", "sparse", "signed", "ties", "zero_rows", "all_zero", "banded_shuffled", "interaction", "int_small", "int_big", "f32", "block", "tiny_scale"]
+KINDS = ["dense", "sparse", "signed", "ties", "zero_rows", "all_zero", "banded_shuffled", "interaction", "int_small", "int_big", "f32", "block", "tiny_scale", "dense_small", "dense_small"]
 
 
 def gen_matrix(rng: random.Random, idx: int) -> dict:
@@ -130,7 +130,11 @@ def gen_matrix(rng: random.Random, idx: int) -> dict:
     nr = np.random.default_rng(rng.getrandbits(32))
     A = np.zeros((n, n))
     integer = False
-    if kind == "dense":
+    if kind == "dense_small":
+        # small dense matrices with few or no random restarts: only the identity start protects "no worse"
+        n = rng.randint(3, 8)
+        A = nr.uniform(0.5, 10, (n, n))
+    elif kind == "dense":
         A = nr.uniform(0, 10, (n, n))
     elif kind == "sparse":
         A = nr.uniform(0, 10, (n, n)) * (nr.random((n, n)) < rng.choice([0.05, 0.15, 0.4]))
@@ -179,7 +183,7 @@ def gen_matrix(rng: random.Random, idx: int) -> dict:
     A = A + A.T
     if rng.random() < 0.3:
         A = A + np.diag(nr.uniform(-5, 5, n) if not integer else nr.integers(-5, 6, n).astype(float))
-    samples = rng.choice([100, 100, 100, 10, 1, 0])
+    samples = rng.choice([100, 100, 100, 10, 1, 0]) if kind != "dense_small" else rng.choice([0, 0, 1, 2])
     return {"id": idx + 1, "kind": kind, "n": n, "A": A.tolist(), "integer": bool(integer or np.all(A == np.round(A)) and np.max(np.abs(A), initial=0) < 2**30 // 32),
             "samples": samples, "seed": rng.getrandbits(31), "dtype": rng.choice(["float64", "float64", "float32"]) if kind in ("int_small", "ties", "all_zero") else "float64"}
 
